@@ -201,6 +201,12 @@ fn handle(line: &str) -> String {
                 Err(p) => format!("{} | {}", q, p),
             }
         }
+        "Z" => {
+            // Z <millis>: let the wall clock advance (histories whose outcome must not depend on it)
+            let ms = parts.get(1).and_then(|s| s.parse::<u64>().ok()).unwrap_or(0).min(3000);
+            std::thread::sleep(std::time::Duration::from_millis(ms));
+            "ZZ".to_string()
+        }
         "U" => {
             // U S <Variant> <n> | U T <Variant> <n> | U F <Variant>
             let n = parts.get(3).and_then(|s| s.parse::<u64>().ok()).unwrap_or(0);
